@@ -6,7 +6,7 @@ RULE = ("cases = random conjunctive provenance hypergraphs (2-5 units, 1-4 rows 
         "needing several units, units owning several rows, units owning no row, isolated units), labels over 1-3 "
         "classes, K in 1..3, ~30% tied distances; for every instance ALL targets x boundary_with x boundary_without "
         "(incl. None) are queried: the result dictionaries (counts in domain order) are compared inside Coq with the "
-        "oracle model run on the compiled diagram dumped from the implementation (validated by compiled_ok), and with "
+        "oracle model run on the compiled diagram dumped from the implementation (accepted by valid_compiled, and EQUAL node by node to the model of compile() over the component structure its graph step derives), and with "
         "the counting specification (histogram over all 2^(units-1) assignments); several instances with the same K "
         "and class count but growing unit counts run in one process; one-unit instances are the known finding F12; "
         "non-trivial = some query has at least 3 non-empty tally buckets; distinct = JSON")
@@ -62,6 +62,36 @@ def make_prov(inst):
     return Provenance([Conjunction(*[units[u] == 1 for u in row]) for row in inst["rows"]])
 
 
+def compile_hints(prov):
+    """the component structure compile() derives from the provenance (same numpy / scipy calls): per component, in
+    order, the sorted factor units and the sorted leaf units; [] in the chain case"""
+    import numpy as np
+    from functools import partial
+    from itertools import combinations, chain
+    from scipy.sparse import csr_matrix
+    from scipy.sparse.csgraph import connected_components
+    if prov.max_conjunctions == 1:
+        return []
+    tuple_units = [np.sort(np.delete(a, np.asarray(a == -1).nonzero())) for a in prov.data[:, 0, :, 0]]
+    pairings = np.array(list(set(chain.from_iterable(map(partial(combinations, r=2), tuple_units)))))
+    unique, unique_counts = np.unique(pairings, return_counts=True)
+    degrees = np.zeros((prov.num_units,), dtype=int)
+    degrees[unique] = unique_counts
+    neighbors = csr_matrix((np.repeat(1, repeats=pairings.shape[0]), (pairings[:, 0], pairings[:, 1])),
+                           shape=[prov.num_units, prov.num_units])
+    neighbors += neighbors.transpose()
+    num_components, index = connected_components(neighbors, directed=False, return_labels=True)
+    components = [set() for _ in range(num_components)]
+    for unit, comp in enumerate(index):
+        components[comp].add(unit)
+    leaf, available = set(), set(range(prov.num_units))
+    for unit in np.argsort(degrees):
+        if unit in available:
+            leaf.add(int(unit))
+            available.difference_update(neighbors.getrow(unit).indices)
+    return [[sorted(int(u) for u in c - leaf), sorted(int(u) for u in c & leaf)] for c in components]
+
+
 def run_one(inst):
     import numpy as np
     from datascope.importance.oracle import ShapleyOracle, ATally, compile as compile_prov
@@ -81,7 +111,7 @@ def run_one(inst):
                 res = oracle.query(target=prov.units[target], boundary_with=t1, boundary_without=t2)
                 assert [k.value for k in res.keys()] == dom
                 queries.append([target, t1, t2, [int(x) for x in res.values()]])
-    return {"add": dumped, "locs": locs, "queries": queries, "chain": prov.max_conjunctions == 1}
+    return {"add": dumped, "locs": locs, "queries": queries, "chain": prov.max_conjunctions == 1, "hints": compile_hints(prov)}
 
 
 def run_impl(c):
@@ -102,7 +132,8 @@ def emit_one(inst, o):
     locs = cf.lst([cf.lst(["(%s, %s, %s)" % (cf.nat(a), cf.nat(b), cf.b(c)) for a, b, c in row]) for row in o["locs"]])
     qs = cf.lst(["(%s, %s, %s, %s)" % (cf.nat(tg), cf.nat(t1), "None" if t2 is None else "(Some %s)" % cf.nat(t2), cf.nats(cn))
                  for tg, t1, t2, cn in o["queries"]])
-    return "(mkCase %s %s %s %s %s)" % (prob_term(inst), c10.add_term(o["add"], t), locs, cf.b(o["chain"]), qs)
+    hints = cf.lst(["(%s, %s)" % (cf.nats(f), cf.nats(l)) for f, l in o.get("hints", [])])
+    return "(mkCase %s %s %s %s %s %s)" % (prob_term(inst), c10.add_term(o["add"], t), locs, cf.b(o["chain"]), hints, qs)
 
 
 def emit(c, o):
@@ -139,6 +170,8 @@ def distribution(cases, outs):
             "tied_distances": sum(1 for i in flat if len(set(i["dist"])) < len(i["dist"])),
             "multi_unit_rows": sum(1 for i in flat if any(len(r) > 1 for r in i["rows"])),
             "units_owning_no_row": sum(1 for i in flat if set(range(i["n"])) - set(u for r in i["rows"] for u in r)),
+            "compile_model_compared_structurally": sum(1 for o in outs if isinstance(o, dict) and "exc" not in o
+                                                        for oo in (o["multi"] if "multi" in o else [o]) if oo.get("hints")),
             "queries": sum(len(oo["queries"]) for o in outs if isinstance(o, dict) and "exc" not in o
                            for oo in (o["multi"] if "multi" in o else [o])),
             "exceptions": dict(Counter(o["exc"] for o in outs if isinstance(o, dict) and "exc" in o))}
